@@ -4,6 +4,7 @@ go 1.26
 
 require (
 	github.com/cbeuw/Cloak v0.0.0
+	github.com/refraction-networking/utls v1.7.3
 	github.com/sirupsen/logrus v1.9.3
 	golang.org/x/crypto v0.37.0
 )
@@ -15,7 +16,6 @@ require (
 	github.com/gorilla/websocket v1.5.3 // indirect
 	github.com/juju/ratelimit v1.0.2 // indirect
 	github.com/klauspost/compress v1.18.0 // indirect
-	github.com/refraction-networking/utls v1.7.3 // indirect
 	go.etcd.io/bbolt v1.4.0 // indirect
 	golang.org/x/sys v0.32.0 // indirect
 )
